@@ -12,12 +12,12 @@ CHECKS = {
  "C17": ("exploration", "ENUM",
    "bounded-exhaustive enumeration of argument products for a fixed family of macro-generated APIs, called through the generated client stubs over a real WsClient against the generated server in memory",
    "Four #[rpc(client, server)] traits (0-4 params, trailing Option x1/x2, Option in the middle, param_kind array/map, argument rename, camelCase, aliases, namespaces with separators _ . /, sync/async/blocking, value and error returns, subscriptions with params / Option tail / map kind / overridden notification name / aliases) compiled into the harness; full product of per-type argument alphabets per method; hand-encoded requests for passed/null/omitted trailing optionals under both encodings; every alias and namespaced name. Oracle: arguments recorded by the server impl == client arguments, client result == server return (value or error object), subscription items equal and in order.",
-   "The `programs` quantifier is covered only over this fixed family of declarations (the space of macro inputs is not enumerable by this technique); Option<Option<_>> is excluded.",
+   "The `programs` quantifier is covered only over this fixed family of declarations (the space of macro inputs is not enumerable by this technique); Option<Option<_>> is excluded. Four transports: WsClient over an in-memory duplex, HttpClient bridged in process to the tower service, and both clients built from URLs against Server::start on loopback.",
    "DESIGN.md §6 C17"),
  "C11": ("model_checking", "SCHED",
    "stateless DFS over all orders of connection opens/closes/aborts (each a scheduling point) on in-memory HTTP and WebSocket connections sharing one ConnectionGuard; interval-rule monitor against a reference occupancy counter",
    "Limits 0..2 (thorough 3), limit+1..limit+3 connections: HTTP requests being processed (parked handler), keep-alive follow-ups, WebSocket sessions ended by close frame / reset mid-call / with open subscription / protocol violation by a hand-written peer that keeps its socket open / upgrade whose response is never read / HTTP request aborted mid-call / server stop. Certain occupancy never exceeds the limit and agrees with ConnectionGuard::available_connections() seen inside running calls; every 429 must be justified by a possibly full server during the attempt; every ended WebSocket connection must have its session finished by quiescence; no handler runs for a refused request.",
-   "TowerService assembly over in-memory duplexes (not Server::start's accept loop); preemption only at points.",
+   "TowerService assembly over in-memory duplexes (not Server::start's accept loop); preemption only at points. Includes server-side closes for ping inactivity (virtual time). A change that merely postpones the server's own close of a still-open connection is outside what the monitor (and the property) can observe.",
    "DESIGN.md §6 C11"),
  "C10": ("model_checking", "SCHED",
    "stateless DFS over all release orders of peer actions, parked call handlers, stop()/handle drop and the library's cfg points on real in-memory WebSocket and HTTP/1.1 connections; trace monitor with a transport write log",
@@ -27,17 +27,17 @@ CHECKS = {
  "C06": ("model_checking", "SCHED",
    "stateless DFS over all release orders of peer actions and puppet-handler steps on real in-memory WebSocket connections; interval-rule (linearizability-style) monitor against a reference set of active subscriptions and a slot counter",
    "Caps 0..2, 1-2 connections; peer scripts {subscribe x(cap+1...), unsubscribe own live / repeated / other connection's / never issued / wrong JSON type, close frame, abrupt drop, subscribe again after endings} x handler scripts {hold, return, reject, drop pending, watch closed(), clone + drop one clone}; whole tree when <= 10k (thorough 400k) executions, else <= 2 (thorough 3) deviations. Every unsubscribe answer must equal the reference 'active' value at some trace position between request and answer; every -32006 refusal must be justified by a full connection during the call; the slot count never exceeds the cap; is_closed() of a held sink equals not-active.",
-   "active = accepted (accept() returned to the handler) and not unsubscribed and connection open (on_session_closed unresolved) and handler holds >= 1 sink; preemption only at points.",
+   "active = accepted (accept() returned to the handler) and not unsubscribed and connection open (on_session_closed unresolved) and handler holds >= 1 sink; preemption only at points. Also: string subscription ids, an id provider that reuses ids (dedicated judge), accept() answers above max_response_body_size, and the low-level ws::connect assembly.",
    "DESIGN.md §6 C06"),
  "C04": ("model_checking", "SCHED",
    "stateless DFS over all release orders of peer actions, puppet-handler steps, stop() and the library's cfg points on real in-memory WebSocket connections; trace monitor",
    "Scenarios = peer scripts {subscribe, unsubscribe own/foreign, call, close frame, abrupt drop} x handler scripts {accept, reject, drop pending, send, try_send, is_closed, closed().await, clone, return none/error/close message} x stop x point masks (harness only / subscription-sink points / all server points), 1-2 connections, 1-2 subscriptions; whole tree when <= 15k (thorough 400k) executions, else <= 2 (thorough 3) deviations. Monitor: every notification frame carries a subscription id accepted on that connection and the right method name, comes after the accepting response, payloads are a prefix of the handler's successful sends in order, rejected/never-accepted subscriptions produce nothing, at most one closing notification, and after the server-exposed close instant (unsubscribe true seen by the peer / on_session_closed / stopped) every later-started send fails and is_closed() is true.",
-   "Preemption only at points; closing instants are those the server exposes.",
+   "Preemption only at points; closing instants are those the server exposes. Also: accept() answers above max_response_body_size, stop with a call in flight, stop with a stalled writer (peer not reading), string subscription ids, the low-level ws::connect assembly.",
    "DESIGN.md §6 C04"),
  "C18": ("model_checking", "HIST+SCHED",
    "explicit-state BFS over client operation histories (each event run on the real client to quiescence), canonical key = reference lifecycle state + the four table sizes read through the accessor hook; plus SCHED over drop-under-backpressure interleavings and long fixed repetitions",
    "BFS from a 34-event menu (call, batch, two subscriptions, notification handler and every server answer: ok/error/malformed id/duplicate id, abandon-before-ack, notification, lag, unsubscribe, drop, acknowledgement, server close, stale responses re-using finished ids) to depth 12 (thorough: to the fixpoint, 2.8k states); in every state each table is bounded by what is outstanding and with nothing outstanding all four tables are empty; a stale id behaves like a never-used id. SCHED: handler/subscription dropped while the request queue is full, all interleavings. 200x/1000x repetitions of each lifecycle with constant sizes.",
-   "Table sizes come from the cfg(jsonrpsee_verif) accessor; the event menu is the alphabet (two subscriptions, one call, one batch, one handler).",
+   "Table sizes come from the cfg(jsonrpsee_verif) accessor; the event menu is the alphabet (two subscriptions, one call, one batch, one handler, two array messages); the BFS reaches its fixpoint (depth 16) in both tiers.",
    "DESIGN.md §6 C18"),
  "C05": ("model_checking", "SCHED+ENUM",
    "enumeration of server push sequences x all groupings into arrays x buffer sizes x consumer scripts, each scenario explored over the complete tree of interleavings (stateless DFS under the controlled scheduler); bounded-queue reference model replayed over each execution's trace",
@@ -47,12 +47,12 @@ CHECKS = {
  "C12": ("exploration", "ENUM+SCHED",
    "bounded-exhaustive enumeration of server reply sequences for batches (all permutations/subsets/duplications/foreign ids) through both clients against a positional reference; SCHED over delivery orders of concurrent batches",
    "For n = 1..3 (thorough 4) every reply sequence of length 0..n+1 over {ok/err answer for entry j, foreign id, non-numeric id} x id kind is delivered to the async client (CLI-MEM, real background tasks) and to the HTTP client (scripted tower layer, real HttpClient); result length, positional correctness of every entry, success/failure counts and into_ok() are judged; plus all delivery orders of 2 batches + calls in flight with reversed reply arrays.",
-   "A fresh client per case (ids start at 0); replies longer than n+1 items not covered.",
+   "A fresh client per case (batch ids start at 0, 1 or 9, so that string ids cross \"9\"/\"10\"); n <= 4 (thorough 5); replies longer than n+1 items not covered.",
    "DESIGN.md §6 C12"),
  "C03": ("model_checking", "SCHED",
    "stateless DFS over all release orders of front-end operations, server answers (every permutation, duplication, omission) and the client's background tasks under a controlled scheduler",
    "For 2-3 concurrent operations out of {request, subscribe, batch, notification} x per-message answer pattern {ok, error, omitted, twice} x extra server messages {stray notifications, never-sent id, packed array} x id kind, every front-end start and every delivery is a scheduling point; the whole schedule tree is explored when it has <= 6k (thorough 300k) executions, else all schedules with <= 2 (thorough 3) deviations. On every execution each completed future must hold the payload of the delivered message whose id equals the id in that call's own wire bytes, must not complete before that delivery, an unanswered call stays pending, and RestartNeeded only appears after a message that matches nothing pending. The client's wire output is checked for JSON-RPC 2.0 well-formedness.",
-   "Interleaving granularity = harness points plus the send task's before_handle point (thorough); 4+ concurrent operations not covered.",
+   "Interleaving granularity = harness points plus the send task's before_handle point (thorough); 4+ concurrent operations not covered. Also: a transport whose receive() is not cancellation safe racing the inactivity timer, batch ids crossing powers of ten after a warm-up, a batch reply packed behind notifications overflowing an unread subscription, a server that reuses subscription ids.",
    "DESIGN.md §6 C03"),
  "C09": ("model_checking", "SCHED+ENUM",
    "stateless DFS over all release orders of the real client's tasks under a controlled scheduler (hook points in harness transports, front-end actors, environment events and the library's send/read/shutdown tasks), with fault enumeration at every step",
@@ -62,41 +62,41 @@ CHECKS = {
  "C08": ("exploration", "ENUM",
    "bounded-exhaustive enumeration of (limit, response shape, payload size) and batch layouts; differential against a server with the limit disabled; every wire frame measured",
    "For every limit 40..260 (thorough ..330) and {1024, 65536} and each of 30 response shapes, every payload size whose unlimited reply length is within limit+-3 is requested over HTTP and WS: a fitting reply must be byte-identical to the unlimited server's, a too-big one must be -32008 with the call's id; batches of 1..4 entries with total array length limit-2..limit+2 and the adjustable entry at every position (array byte-identical or -32011); WS subscribe responses with subscription ids of controlled width; full 1-step sweep of MethodResponse::response / BatchResponseBuilder; handler log identical with and without limit.",
-   "Payload classes are the 5 listed; in-memory transports.",
+   "Payload classes are the 5 listed; in-memory transports. Batches are all valid calls or contain one non-request entry (last / middle / first).",
    "DESIGN.md §6 C08"),
  "C07": ("exploration", "ENUM",
    "bounded-exhaustive enumeration of a (request limit, response limit) x message size x padding x entry point x body framing grid, handler log as oracle",
-   "8 limit pairs incl. unequal ones x sizes limit-2..limit+2, 1.5x, 2x, 10x x 3 padding styles x {TowerService HTTP, TowerService WS, http::call_with_service_builder, http::call_with_service, ws::connect, Server::start over loopback TCP (HTTP with Content-Length / chunked), Server::start over loopback TCP (WebSocket)} x 6 HTTP framings (Content-Length exact/absent/lying, 1/3/many frames); the message is always a valid call, so 'processed' is observable as 'handler ran once'; over the limit => no handler, -32007 / HTTP error status and the WS connection answers a later call; a second sweep holds the request limit and varies the response limit to show independence.",
+   "8 limit pairs incl. unequal ones x sizes limit-2..limit+2, 1.5x, 2x, 10x x 3 padding styles x {TowerService HTTP, TowerService WS, the same two with the configuration built limits-first and http_only()/ws_only() last, http::call_with_service_builder, http::call_with_service, ws::connect, Server::start over loopback TCP (HTTP with Content-Length / chunked), Server::start over loopback TCP (WebSocket)} x 6 HTTP framings (Content-Length exact/absent/lying, 1/3/many frames); the message is always a valid call, so 'processed' is observable as 'handler ran once'; over the limit => no handler, -32007 / HTTP error status and the WS connection answers a later call; a second sweep holds the request limit and varies the response limit to show independence.",
    "WebSocket messages are single unfragmented frames.",
    "DESIGN.md §6 C07"),
  "C01": ("exploration", "ENUM",
    "bounded-exhaustive enumeration of message byte strings (request products, token strings, byte-level mutations, all short byte strings) through both transports against an independent classifier",
    "Every distinct byte string of the stated generators (REQ product of 21 id forms x 12 methods x 11 params x 5 versions, member orders/duplicates/whitespace sub-product, all token strings of length <=5 (thorough 6) over 14 tokens, position-wise mutations of base requests, all 1- and (thorough: all) 2-byte strings, every single-byte replacement) is sent over HTTP (tower service) and over a fresh in-memory WebSocket connection followed by a sentinel call; all frames until close are collected, so 'at most one reply' is a count; replies, ids, results, invoked handlers and HTTP==WS are compared with a reference classifier written on a duplicate-preserving JSON tree.",
-   "Non-UTF-8 byte strings and objects with duplicate known members are judged on the weak clauses only (<=1 well-formed reply, keeps serving); messages outside the generators are not covered; in-memory duplex instead of TCP.",
+   "Non-UTF-8 byte strings and objects with duplicate known members are judged on the weak clauses only (<=1 well-formed reply, keeps serving); messages outside the generators are not covered. The tower-service legs use in-memory duplexes; the REQ product and all token strings of length <=3 additionally travel through Server::start over loopback TCP (bare and behind the built-in RPC logger middleware) and are judged by the same classifier.",
    "DESIGN.md §6 C01"),
  "C02": ("exploration", "ENUM",
    "bounded-exhaustive enumeration of batch arrays over an entry alphabet x batch configurations x transports against a per-entry reference; all frames until close collected",
-   "All arrays of length 0..4 (thorough 5) over 12 entry kinds, all arrays of length <=3 containing a subscribe call, x {Unlimited, Disabled, Limit(0), Limit(1), Limit(2)} x {HTTP, WS}; one array with exactly the expected multiset of replies, nothing outside the array (every WebSocket frame until close is read), fixed errors -32005/-32010/-32600 with no handler run, and each call entry's reply equals its reply when sent alone.",
+   "All arrays of length 0..4 (thorough 5) over 13 entry kinds (incl. array-encoded request and notification), all arrays of length <=2 x every batch configuration also through Server::start over loopback TCP, all arrays of length <=3 containing a subscribe call, x {Unlimited, Disabled, Limit(0), Limit(1), Limit(2)} x {HTTP, WS}; one array with exactly the expected multiset of replies, nothing outside the array (every WebSocket frame until close is read), fixed errors -32005/-32010/-32600 with no handler run, and each call entry's reply equals its reply when sent alone.",
    "Entry kinds outside the alphabet are not covered; reply order inside the array is not demanded.",
    "DESIGN.md §6 C02"),
  "C19": ("exploration", "ENUM",
    "bounded-exhaustive enumeration of HTTP methods x content-type strings, and of all body chunkings (differential against the single-frame request) through the real tower service",
    "10 methods x ~36k content-type values (six accepted spellings in all letter-case variants, near misses, missing, duplicated) with status and invocation log checked against the statement; 19 bodies x every split into <=3 (thorough 4) chunks x empty/blank chunk inserted at every boundary x Content-Length present/absent, each compared (status, body, handler log) with the single-frame request of the same bytes.",
-   "The TowerService is called directly with an explicit frame-sequence body; hyper's HTTP/1.1 framing is not in the loop. Bodies outside the 17 are not covered.",
+   "For the chunking part the TowerService is called directly with an explicit frame-sequence body (hyper's framing is not in the loop); the method x content-type part also runs as raw HTTP/1.1 requests against Server::start over loopback TCP. The 1- and 2-chunk splits are repeated on a service whose max_request_body_size equals the body length. Bodies outside the 19 are not covered.",
    "DESIGN.md §6 C19"),
  "C13": ("model_checking", "HIST",
    "explicit-state BFS over operation histories of the real RpcModule, canonical state keys, BTreeMap reference model compared on every transition",
-   "Every transition re-executes history++[op] on a fresh real RpcModule (plus kept clones) and compares Ok/Err of the op, method_names() and the dispatch of calls to every name with a map reference; states are deduplicated by name->(kind, handler identity up to renaming); BFS to depth 7 (thorough 10) over a 49-op menu (sync/async/blocking/subscription/raw subscription/alias/merge/remove/clone/continue-from-clone over names a,b,c).",
+   "Every transition re-executes history++[op] on a fresh real RpcModule (plus kept clones) and compares Ok/Err of the op, method_names() and the dispatch of calls to every name with a map reference; states are deduplicated by name->(kind, handler identity up to renaming); BFS to depth 8 (thorough 12) over a 49-op menu (sync/async/blocking/subscription/raw subscription/alias/merge/remove/clone/continue-from-clone over names a,b,c).",
    "Handler identity is observed through returned tags; unsubscribe handlers are identified by kind only; names beyond {a,b,c} and merges beyond the 8 prepared modules are not covered.",
    "DESIGN.md §6 C13"),
  "C14": ("exploration", "ENUM",
    "bounded-exhaustive enumeration of (allow-list, Host header, header multiplicity, request-target) against an independent authority matcher",
-   "All 1- and 2-entry allow-lists over 14 patterns x 3.5k Host header strings (scheme x host x userinfo x port forms + control/non-ASCII) x multiplicity {0,1,2} x 4 request-target forms through the real HostFilterLayer over a counting probe service; soundness (admitted => some entry matches) on every case, completeness for single-entry lists and plain authorities.",
+   "All 1- and 2-entry allow-lists (both orders; thorough also every 3-entry combination) over 14 patterns x 3.5k Host header strings (scheme x host x userinfo x port forms + control/non-ASCII) x multiplicity {0,1,2} x 4 request-target forms through the real HostFilterLayer over a counting probe service; soundness (admitted => some entry matches) on every case, completeness for single-entry lists and plain authorities. An SRV-TCP leg installs the layer as HTTP middleware of Server::start and sends single-entry lists x scheme-less Host values x request-target forms as raw HTTP/1.1, the same judgement applied to (status, handler ran).",
    "The reference reads the request-target authority both with and without its scheme (statement is silent); completeness is only demanded where the statement gives it.",
    "DESIGN.md §6 C14"),
  "C15": ("exploration", "ENUM",
    "bounded-exhaustive enumeration of inputs (all 2^32 error codes; all short id strings; all response member sequences) against a reference predicate",
-   "Exhaustive within stated alphabets: every i32 code, every id string of length <=3 (thorough 4) over a 20-symbol adversarial alphabet, every sequence of <=5 (thorough 6) response members out of 16; round-trip identity and a reference acceptor are evaluated on every case. Right level because the property is a pure function of finite-alphabet inputs, so enumeration decides it within the bound.",
+   "Exhaustive within stated alphabets: every i32 code, every id string of length <=3 (thorough 4) over a 20-symbol adversarial alphabet, every sequence of <=5 (thorough 6) response members out of 18 (incl. escaped spellings of \"2.0\" and of the member name id); round-trip identity and a reference acceptor are evaluated on every case. Right level because the property is a pure function of finite-alphabet inputs, so enumeration decides it within the bound.",
    "Trusts serde_json as JSON layer on both sides; values outside the alphabets are not covered; `null` params / error data are identified with absent (Option) as the library's data model does.",
    "DESIGN.md §6 C15"),
  "C16": ("exploration", "ENUM",
@@ -106,7 +106,7 @@ CHECKS = {
    "DESIGN.md §6 C16"),
  "C20": ("exploration", "ENUM+HIST",
    "bounded-exhaustive enumeration of insert histories (incl. Serialize impls failing before / midway) against serde_json::to_value and a pair-preserving parse",
-   "Exhaustive within the alphabet: all insert sequences of length <=4 (thorough 5) over 17 value kinds into both builders (3 key schemes incl. duplicate/escaped keys), clones taken mid-history, rpc_params! 0..4 args, tuples of all arities 1..16, slices/arrays/Vec/Map, batch builder 0..3 entries; oracle = valid JSON that parses back to exactly the successfully inserted values; panics are caught.",
+   "Exhaustive within the alphabet: all insert sequences of length <=5 (thorough 6) over 17 value kinds into both builders (3 key schemes incl. duplicate/escaped keys), clones taken mid-history, rpc_params! 0..4 args, tuples of all arities 1..16, slices/arrays/Vec of length 0..3 and sub-slices, Map, batch builder 0..3 entries; oracle = valid JSON that parses back to exactly the successfully inserted values; panics are caught.",
    "Values outside the 17 kinds are not covered; serde_json::to_value is the reference serialisation.",
    "DESIGN.md §6 C20"),
 }
